@@ -572,6 +572,19 @@ def run_c15(fe, spec, pk, sh, stats):
     return res
 
 
+def long_shapes(spec, pk, tier):
+    """string / list lengths at the signed boundary and at the maximum of a ONE-BYTE length prefix (the quantifier of C01/C02 names
+    'long lists' and boundary values; a prefix read back as a signed byte is invisible below 128)"""
+    out = []
+    has_dyn = any(spec.resolve(f)[0] == 'dyn' for f in pk.fields)
+    has_rep = any(f.repeat for f in pk.fields)
+    if spec.strpfx() == 'u8' and has_dyn:
+        out += [Shape(n, 1) for n in ((200,) if tier == 'quick' else (127, 128, 255))]
+    if spec.listpfx() == 'u8' and has_rep:
+        out += [Shape(1, n) for n in ((130,) if tier == 'quick' else (127, 128, 255))]
+    return out
+
+
 def field_vars(v):
     out = []
     if isinstance(v, list):
@@ -667,7 +680,10 @@ def worker(job):
                 if tier == 'thorough' and w in ('u16',) and spec.name.startswith('len_u16_'):
                     big = big + [32800]
                 shapes = shapes + [Shape(n, 1, a) for n in big for a in range(max(1, nal))]
+        if prop in ('C01', 'C02', 'C03'):
+            shapes = shapes + long_shapes(spec, pk, tier)
         for sh in shapes:
+            core.LOOP_BOUND[0] = 300 if (isinstance(sh.k, int) and sh.k > 64) else 64
             if prop == 'C03':
                 out['cells'] += 1
                 try:
@@ -1235,6 +1251,9 @@ def main(prop, tier, update_known=False):
     _LOW['emits'] = emits
     _LOW['low'] = low
     sel = [p for p in progs if fams is None or p.family in fams]
+    only = os.environ.get('VERIF_ONLY')          # debugging aid (never set by a registered command): restrict to programs by prefix
+    if only:
+        sel = [p for p in sel if any(p.name.startswith(o) for o in only.split(','))]
     jobs = [(prop, tier, p.name) for p in sel]
     t_low = time.time() - t0
     with multiprocessing.get_context('fork').Pool(min(16, os.cpu_count() or 4)) as pool:
